@@ -99,6 +99,17 @@ def check(prog, rep):
         reads = [n for n in walk_local(fi.node, include_self=False) if isinstance(n, ast.Attribute) and n.attr.startswith("_") and isinstance(n.value, ast.Name) and n.value.id == "problem"]
         names = sorted({n.attr for n in reads})
         rep.ob("R08.4", fi.name, names == ["_lp_cache"], f"the only per-problem state reused across solves is {names}" if names == ["_lp_cache"] else f"reads private problem state {names}", loc=fi.loc, detail="reused-state")
+    from .common import cache_inplace_mutations, problem_model
+    muts = [m for m in cache_inplace_mutations(prog, problem_model(prog)) if "lp" in m[0].module.name]
+    for f, n, what in muts:
+        rep.ob("R08.4", f.qual.split(":")[1], False, what + ": a repeated solve of the same LP uses altered matrices (e.g. the sign of c alternates between solves)", loc=f"{f.module.rel}:{n.lineno}", detail=f"in-place:{src(n)[:30]}")
+    from .common import bound_expr_problem
+    eb = prog.cls("LinearProgramExtractor").methods.get("extract_bounds")
+    for n in walk_local(eb.node):
+        if isinstance(n, ast.Assign) and isinstance(n.targets[0], ast.Name) and any(isinstance(x, ast.Attribute) and x.attr in ("lb", "ub") for x in ast.walk(n.value)):
+            pr = bound_expr_problem(n.value)
+            rep.ob("R08.2", "extract_bounds", pr is None, f"{src(n.targets[0])} is the declared bound (None only when it is None)" if pr is None else pr + ": linprog solves a different (less bounded) LP", loc=f"{eb.module.rel}:{n.lineno}", detail=f"bound-value:{src(n.targets[0])}")
+    rep.ob("R08.4", "lp cache", not muts, "the cached LPData is only read, never modified in place", detail="cache-read-only", loc=None)
     rep.expect_min("R08.1", 12)
     rep.expect_min("R08.2", 7)
     rep.expect_min("R08.3", 4)
